@@ -30,6 +30,7 @@ RULE += (" Also: histories with raising exits (an unwind ending in an exit's fai
 RULE += (' Also: exits failing with a falsy exception instance.')
 RULE += (' Also: a manager whose enter calls pop_all() on the stack it is being entered on; the same exit / manager registered twice.')
 RULE += (' Also: plain callables returning the awaitable of an asynchronous exit, pushed.')
+RULE += (' Also: enters failing with a BaseException that is not an Exception.')
 ASSUMPTIONS = ["nested async with/with statements of the running interpreter are the reference for routing",
                "__context__ chains are not compared"]
 EXHAUSTIVE_SUBSPACES = 'all 16842 stacks of <= 3 entries x block outcome; all histories of length <= 4 (thorough: 5) over 8 operations'
@@ -543,6 +544,23 @@ def exec_history(ops, factory):
         def __exit__(self, *a):
             log.append(("exit", "failed-enter"))
 
+    class FailEnterBase:
+        """__aenter__ is interrupted by a BaseException that is not an Exception (a cancellation, KeyboardInterrupt):
+        an enter that failed is an enter that failed - the manager is not exited."""
+
+        async def __aenter__(self):
+            raise EB("enter")
+
+        async def __aexit__(self, *a):
+            log.append(("exit", "failed-enter"))
+
+    class FailEnterBaseSync:
+        def __enter__(self):
+            raise EB("enter")
+
+        def __exit__(self, *a):
+            log.append(("exit", "failed-enter"))
+
     async def main():
         stacks = [factory()]
         nid = 0
@@ -644,8 +662,12 @@ def exec_history(ops, factory):
                 elif op[0] == "enter_fail":
                     k = op[1] if op[1] < len(stacks) else 0
                     try:
-                        variant = (nid + len(ops)) % 4
-                        if variant == 0:
+                        variant = (nid + len(ops)) % 6
+                        if variant == 4:
+                            await stacks[k].enter("acm", FailEnterBase())
+                        elif variant == 5:
+                            await stacks[k].enter("scm", FailEnterBaseSync())
+                        elif variant == 0:
                             await stacks[k].enter("scm", FailEnterSync())
                         elif variant == 1:
                             await stacks[k].enter("acm", FailEnter())
@@ -653,7 +675,7 @@ def exec_history(ops, factory):
                             await stacks[k].enter("acm", FailEnterAttr())
                         else:
                             await stacks[k].enter("acm", FailEnterAttrDual())
-                    except E as x:
+                    except (E, EB) as x:
                         log.append(("enter-raised", x.n))
                     except AttributeError as x:
                         # the very error of __aenter__ ("enter"), not a secondary one about a missing method
